@@ -11,7 +11,7 @@ theorem prec_of_kind {o : Operator} {k : OpKind} (h : o.kind = k) : o.precedence
 
 theorem rootNode_kind : Node.rootNode.op.kind = .rootNode := rfl
 
-theorem pushSequence_level {root : Node} {l s : List Node} (h : Level (root :: l)) (node : Node)
+theorem pushSequence_level {root : Node} {l s : List Node} (h : StkLevel (root :: l)) (node : Node)
     (hn : node.op.isSequence = true) : StepOK (pushSequence (l ++ s) root node) s := by
   rcases seq_kind hn with hk | hk
   · -- a tuple separator
@@ -62,7 +62,7 @@ def pushAny (stack : List Node) (node : Node) : Res (List Node) :=
   | root :: stack =>
     if node.op.isSequence then pushSequence stack root node else pushNode stack root node
 
-theorem pushAny_level {l s : List Node} (h : Level l) (node : Node) :
+theorem pushAny_level {l s : List Node} (h : StkLevel l) (node : Node) :
     StepOK (pushAny (l ++ s) node) s := by
   cases l with
   | nil => exact absurd rfl h.ne_nil
@@ -80,7 +80,7 @@ theorem hasTooMany_root_error (R : Node) (s : List Node) (h : R.op.kind = .rootN
   simp only [kind_root_isRoot h, if_true]
   cases R.hasTooManyChildren <;> simp
 
-theorem collapse_level {l : List Node} (h : Level l) (s : List Node) :
+theorem collapse_level {l : List Node} (h : StkLevel l) (s : List Node) :
     collapseAllSequences (l ++ s) = .error .missingOperatorOutsideOfBrace ∨
     ∃ R, R.op.kind = .rootNode ∧ collapseAllSequences (l ++ s) = .ok (R :: s) := by
   cases h with
